@@ -115,6 +115,69 @@ int main(void) {
                 free(out); free(exact); carquet_buffer_destroy(&b2);
             }
             carquet_buffer_destroy(&b); free(flat);
+        } else if (!strcmp(op, "bitrw") && h_ntok >= 1) {
+            /* bitrw <seg>...: the raw bit writer / bit reader pair of core/bitpack.c.  seg = b<0|1> (write_bit) |
+               w<value>:<nbits 0..32> (write_bits) | q<value hex>:<nbits 0..64> (write_bits64); flush; then the same
+               sequence is read back (read_bit / read_bits / read_bits64) from an exact-size copy of the bytes.
+               Prints the bytes written, the values read back (hex), and remaining_bits / has_more after the last read. */
+            size_t total = 0;
+            for (int i = 1; i < h_ntok; i++) { const char* t = h_tok[i]; const char* c = strchr(t, ':'); total += t[0] == 'b' ? 1 : (size_t)atoi(c ? c + 1 : "0"); }
+            size_t cap = (total + 7) / 8;
+            uint8_t* buf = malloc(cap ? cap : 1); memset(buf, 0, cap ? cap : 1);
+            carquet_bit_writer_t bw; carquet_bit_writer_init(&bw, buf, cap);
+            for (int i = 1; i < h_ntok; i++) {
+                const char* t = h_tok[i]; const char* c = strchr(t, ':');
+                if (t[0] == 'b') carquet_bit_writer_write_bit(&bw, atoi(t + 1));
+                else if (t[0] == 'w') carquet_bit_writer_write_bits(&bw, (uint32_t)strtoul(t + 1, NULL, 10), atoi(c + 1));
+                else carquet_bit_writer_write_bits64(&bw, strtoull(t + 1, NULL, 16), atoi(c + 1));
+            }
+            carquet_bit_writer_flush(&bw);
+            size_t n = carquet_bit_writer_bytes_written(&bw);
+            uint8_t* exact = malloc(n ? n : 1); if (n) memcpy(exact, buf, n);
+            printf("OK "); h_puthex(exact, n); putchar(' ');
+            carquet_bit_reader_t br; carquet_bit_reader_init(&br, exact, n);
+            if (h_ntok == 1) putchar('-');
+            for (int i = 1; i < h_ntok; i++) {
+                const char* t = h_tok[i]; const char* c = strchr(t, ':');
+                unsigned long long g;
+                if (t[0] == 'b') g = (unsigned long long)carquet_bit_reader_read_bit(&br);
+                else if (t[0] == 'w') g = carquet_bit_reader_read_bits(&br, atoi(c + 1));
+                else g = carquet_bit_reader_read_bits64(&br, atoi(c + 1));
+                printf("%s%llx", i > 1 ? "," : "", g);
+            }
+            printf(" rem=%zu more=%d\n", carquet_bit_reader_remaining_bits(&br), (int)carquet_bit_reader_has_more(&br));
+            free(exact); free(buf);
+        } else if (!strcmp(op, "rle_enclvl") && h_ntok >= 2) {
+            /* rle_enclvl <w> <levels>...: carquet_rle_encode_levels (int16 input), then decode_levels and
+               decode_levels_prefixed (4-byte length in front) of exactly the encoded bytes */
+            int w = atoi(h_tok[1]); int64_t count = h_ntok - 2;
+            int16_t* v = malloc((count ? count : 1) * sizeof(int16_t));
+            for (int64_t i = 0; i < count; i++) v[i] = (int16_t)atoi(h_tok[2 + i]);
+            carquet_buffer_t b; carquet_buffer_init(&b);
+            carquet_status_t st = carquet_rle_encode_levels(v, count, w, &b);
+            if (st != CARQUET_OK) printf("ERR %d\n", (int)st);
+            else {
+                uint8_t* exact = malloc(b.size + 4); uint32_t len = (uint32_t)b.size; memcpy(exact, &len, 4); if (b.size) memcpy(exact + 4, b.data, b.size);
+                int16_t* o1 = malloc((count ? count : 1) * sizeof(int16_t)); int16_t* o2 = malloc((count ? count : 1) * sizeof(int16_t));
+                size_t consumed = 0;
+                int64_t g1 = carquet_rle_decode_levels(exact + 4, b.size, w, o1, count);
+                int64_t g2 = carquet_rle_decode_levels_prefixed(exact, b.size + 4, w, o2, count, &consumed);
+                printf("OK "); h_puthex(b.data, b.size); printf(" %lld:", (long long)g1);
+                for (int64_t i = 0; i < g1; i++) printf("%s%d", i ? "," : "", (int)o1[i]);
+                printf(" %lld/%zu:", (long long)g2, consumed);
+                for (int64_t i = 0; i < g2; i++) printf("%s%d", i ? "," : "", (int)o2[i]);
+                putchar('\n');
+                free(o1); free(o2); free(exact);
+            }
+            carquet_buffer_destroy(&b); free(v);
+        } else if (!strcmp(op, "getfn") && h_ntok == 3) {
+            /* getfn <w> <hex bytes>: the unpack function table accessor */
+            int w = atoi(h_tok[1]); size_t n; void* base;
+            uint8_t* in = h_unhex(h_tok[2], &n, 0, &base);
+            carquet_bitunpack8_fn f = carquet_get_bitunpack8_fn(w);
+            if (!f) printf("OK NULL\n");
+            else { uint32_t v[8]; f(in, v); printf("OK "); put_vals_u32(v, 8); putchar('\n'); }
+            free(base);
         } else if (!strcmp(op, "rle_rtrun") && h_ntok == 5) {
             /* rle_rtrun <w> <k> <v> <count>: the sequence  k alternating literals, count x v, one other value
                is encoded with carquet_rle_encode_all and decoded with decode_all, decode_levels and
